@@ -171,6 +171,17 @@ func (s *c19State) battery(r *gen.R, exhaustiveSub int, mine []string) {
 		}
 		// texttable.NAME selects the same decoration as NAME
 		if decoration.Named(n) != decoration.EmptyDecoration && !c19IsSub(n) && !c19IsSub(strings.SplitN(n, ".", 2)[0]) {
+			// ... and, the name being registered, that decoration is the one registered under it
+			ref := texttable.New()
+			c19Populate(ref)
+			ref.SetDecoration(decoration.Named(n))
+			// (asserted only where no other reading competes: when the name's first dot-section is itself a
+			// registered decoration, resolving to that one with a trailing section would also satisfy the statement)
+			competing := strings.Contains(n, ".") && decoration.Named(strings.SplitN(n, ".", 2)[0]) != decoration.EmptyDecoration
+			if want, werr := ref.Render(); werr == nil && want != out && !competing {
+				s.viol("listed-name-selects-another-decoration:"+nameClass(n), fmt.Sprintf("auto.New(%q) renders %q, but the decoration registered under that name renders %q", n, out, want))
+				return
+			}
 			for _, pre := range []string{"texttable.", "TextTable.", "TEXTTABLE."} {
 				out2, err2, typ2 := renderStyle(pre + n)
 				s.c.Rec.Count("texttable_prefix_equivalences_checked", 1)
@@ -226,7 +237,10 @@ func (s *c19State) battery(r *gen.R, exhaustiveSub int, mine []string) {
 var c19SpecialNames = []string{"", ".", "a.b", "x.", ".y", "a..b", "a.b.c", "csv", "CSV", "Json", "html", "markdown", "MarkDown", "texttable", "TextTable", "texttable.foo", "TextTable.Bar.baz", "csv.special", "utf8-light.mine", "none.x", " ", "with space", "UTF8-LIGHT", "\u00fcn\u00ef", "-", "a/b", "\"q\"", "<b>"}
 
 func c19Name(r *gen.R, hist int) string {
-	switch r.Intn(5) {
+	switch r.Intn(6) {
+	case 5:
+		// a name which extends an already registered one with a further dot-section
+		return gen.Pick(r, decoration.RegisteredDecorationNames()) + "." + r.Word()
 	case 0, 1:
 		return gen.Pick(r, c19SpecialNames)
 	case 2:
@@ -246,6 +260,13 @@ func c19History(c *Ctx, i int, r *gen.R) {
 	for k := 0; k < n && !s.bad; k++ {
 		name := c19Name(r, hist)
 		d, desc := randomDecoration(r)
+		if r.Chance(2, 3) {
+			// the style is used BEFORE its name is registered (it then resolves to something else or to nothing);
+			// whatever that use leaves behind must not outlive the registration
+			renderStyle(name)
+			renderStyle("texttable." + name)
+			s.log = append(s.log, fmt.Sprintf("auto.New(%q) and auto.New(%q) used before the registration", name, "texttable."+name))
+		}
 		decoration.RegisterDecorationName(name, d)
 		mine = append(mine, name)
 		s.log = append(s.log, fmt.Sprintf("RegisterDecorationName(%q, %s)", name, desc))
@@ -265,6 +286,9 @@ func c19Specials(c *Ctx, i int, r *gen.R) {
 	c.Case = s.desc
 	name := c19SpecialNames[i%len(c19SpecialNames)]
 	d, desc := randomDecoration(r)
+	renderStyle(name)
+	renderStyle("texttable." + name)
+	s.log = append(s.log, fmt.Sprintf("auto.New(%q) and auto.New(%q) used before the registration", name, "texttable."+name))
 	decoration.RegisterDecorationName(name, d)
 	s.log = append(s.log, fmt.Sprintf("RegisterDecorationName(%q, %s)", name, desc))
 	c.Rec.Count("registrations", 1)
@@ -279,7 +303,7 @@ func init() {
 		ID:    "C19",
 		Level: "exploration",
 		Rule: "phase 0 (exhaustive over a list): each of 28 special names (empty, dots in every position, names equal to sub-package names in several cases, names starting with 'texttable.', names extending built-in names, spaces, punctuation, markup, non-ASCII, upper-cased built-in) registered with a random complete decoration, followed by the battery with ALL 2^len case variants of all five sub-package names; " +
-			"phase 1: registration histories of 1-6 names (special, dotted, plain in a per-history namespace) with the battery after every step: listing sorted / contains csv,html,json,markdown / contains every registered and built-in decoration; every listed name constructs and renders a header+rows table without error; 'texttable.NAME' (3 case forms of the prefix) gives the same type and bytes as bare NAME; plain 'texttable' (3 case forms) equals the default text table; all case variants of one sub-package name (rotating) and 12 random variants of the others, plus 6 random trailing-section strings each, give the directly constructed renderer's type and bytes; 30 never-registered style strings fail to render. " +
+			"phase 1: registration histories of 1-6 names (special, dotted, plain in a per-history namespace, or extending an already registered name by a dot-section; two thirds of them used as a style string before they are registered) with the battery after every step: listing sorted / contains csv,html,json,markdown / contains every registered and built-in decoration; every listed name constructs and renders a header+rows table without error; 'texttable.NAME' (3 case forms of the prefix) gives the same type and bytes as bare NAME; plain 'texttable' (3 case forms) equals the default text table; all case variants of one sub-package name (rotating) and 12 random variants of the others, plus 6 random trailing-section strings each, give the directly constructed renderer's type and bytes; 30 never-registered style strings fail to render. " +
 			"Distinct = distinct registration histories; all cases are non-trivial.",
 		Assumptions: []string{
 			"registered decorations are non-empty and complete (Populate()d); registering the empty decoration under a name is the fail-closed case of C17",
